@@ -31,7 +31,7 @@ BOUND = {
 }
 TIME_CAP = {"quick": 240, "thorough": 3000}
 
-KINDS = ["f8", "i8", "u1", "b1", "str", "U", "D", "us", "obj"]
+KINDS = ["f8", "i8", "u1", "b1", "str", "U", "D", "us", "td", "obj"]
 PAIRS = [("f8", "str"), ("str", "D"), ("D", "f8"), ("i8", "U"), ("b1", "us"), ("obj", "f8"), ("U", "str"), ("us", "i8"), ("f8", "f8"), ("str", "str")]
 
 
